@@ -456,6 +456,10 @@ func (r *errorReader) itf8() int32 {
 	}
 	_, r.err = io.ReadFull(r, buf[1:n])
 	if r.err != nil {
+		if r.err == io.EOF {
+			// The first byte promised more.
+			r.err = io.ErrUnexpectedEOF
+		}
 		return 0
 	}
 	i, _, ok = itf8.Decode(buf[:n])
@@ -502,6 +506,10 @@ func (r *errorReader) ltf8() int64 {
 	}
 	_, r.err = io.ReadFull(r, buf[1:n])
 	if r.err != nil {
+		if r.err == io.EOF {
+			// The first byte promised more.
+			r.err = io.ErrUnexpectedEOF
+		}
 		return 0
 	}
 	i, _, ok = ltf8.Decode(buf[:n])
